@@ -1580,7 +1580,18 @@ def batches(it, size):
         yield buf
 
 
+def _quiet_twisted_log():
+    """connectionLost reports a raising disconnect callback through twisted.python.log.err(); with no observer
+    Twisted prints that to stderr.  The harness prints nothing: give the log a sink (once per process)."""
+    try:
+        from twisted.logger import globalLogBeginner
+        globalLogBeginner.beginLoggingTo([lambda event: None], redirectStandardIO=False, discardBuffer=True)
+    except Exception:
+        pass
+
+
 def run(ctx):
+    _quiet_twisted_log()
     import txdbus.client as client
     saved_reactor = client.reactor
     from txdbus import message
@@ -1619,6 +1630,7 @@ def run(ctx):
 
 
 def replay(ctx, data):
+    _quiet_twisted_log()
     import txdbus.client as client
     saved_reactor = client.reactor
     try:
